@@ -16,7 +16,10 @@ Definition t_cfg (t : tree) : cfg :=
   {| np_axis := if (t_z (t_nth 0 t) =? 0)%Z then AxLast else Ax3;
      torch_rule := t_vrule (t_nth 1 t); tf_rule := t_vrule (t_nth 2 t);
      tf_stack := if (t_z (t_nth 3 t) <? 0)%Z then LastDim else Times (t_nat (t_nth 3 t));
-     torch_zf := t_zf (t_nth 4 t); tf_zf := t_zf (t_nth 5 t) |}.
+     torch_zf := t_zf (t_nth 4 t); tf_zf := t_zf (t_nth 5 t);
+     torch_mm := if (t_z (t_nth 6 t) =? 0)%Z then MmKeep else MmAllExpand;
+     tf_mm := if (t_z (t_nth 7 t) =? 0)%Z then MmKeep else MmAllExpand;
+     tf_empty_ok := t_bool (t_nth 8 t) |}.
 Definition of_t2 {X} (f : X -> tree) (v : t2 X) : list tree := map f (concat v).
 Definition of_t3 {X} (f : X -> tree) (v : t3 X) : list tree := map f (concat (concat v)).
 Definition of_t4 {X} (f : X -> tree) (v : t4 X) : list tree := map f (concat (concat (concat v))).
